@@ -209,10 +209,11 @@ Next == \/ \E u \in AllNodes, v \in Hidden \cup OutSet, w \in Weights, td \in Td
 Spec == Init /\ [][Next]_vars
 
 (* ------------------------------------ the laws ------------------------------------ *)
-Settled(l) == \A i \in DOMAIN l :
-                 /\ l[i].sset => l[i].so = l[i].want /\ l[i].se = ""
-                 /\ l[i].fset => l[i].fo = l[i].want /\ l[i].fe = ""
-Settles == ph \in {"hist", "suffix", "done"} => Settled(log)
+\* (RecursiveSteps always refuses - law Refusals - and leaves the settled outputs where they are)
+Settled(l, os) == \A i \in DOMAIN l :
+                 /\ l[i].sset => l[i].so = l[i].want /\ (os[i].op # "rec" => l[i].se = "")
+                 /\ l[i].fset => l[i].fo = l[i].want /\ (os[i].op # "rec" => l[i].fe = "")
+Settles == ph \in {"hist", "suffix", "done"} => Settled(log, ops)
 SolversAgree == ph \in {"hist", "suffix", "done"} =>
                    \A i \in DOMAIN log : (log[i].sset /\ log[i].fset) => log[i].so = log[i].fo
 FlushRestores == (ph = "suffix" /\ ops = <<>>) =>
